@@ -69,6 +69,7 @@ func run(c *vkit.Collector, rng *vkit.Rng, budget int) {
 	latticeSweep(c, rng, budget)
 	tiePolygons(c, rng, budget)
 	queryAnswers(c, rng, budget)
+	chunkedReaders(c, rng, budget)
 	c.Extra["violations_by_kind"] = perKind
 }
 
@@ -895,6 +896,46 @@ func queryAnswers(c *vkit.Collector, rng *vkit.Rng, budget int) {
 		if !rectEq(p.RectBound(), q.RectBound()) {
 			violate(c, "Polygon.query.differs", "RectBound differs", rep)
 		}
+	}
+}
+
+// ---- the way the reader delivers the bytes must not matter ----
+
+func readerCheck(c *vkit.Collector, k cg.Kind, b []byte, label string, seed uint64) {
+	c.Eval("reader-kinds", false)
+	if d := cg.ReaderKindDiff(k, b, seed); d != "" {
+		violate(c, cg.KindNames[k]+".Decode.readerKind.differs", d, map[string]interface{}{"type": cg.KindNames[k], "label": label, "encoding_len": len(b), "bytes_prefix": fmt.Sprintf("%x", b[:min(len(b), 200)])})
+	}
+}
+
+// chunkedReaders: encodings longer than one and two of the decoders' 4096-byte buffers, and small
+// ones of every type, decoded through readers without ReadByte, 1 byte per Read, random short reads.
+func chunkedReaders(c *vkit.Collector, rng *vkit.Rng, budget int) {
+	for r := 0; r < budget; r++ {
+		for _, e := range cg.LargeEncodings(rng) {
+			c.Class("chunked-reader:" + e.Label)
+			readerCheck(c, e.Kind, e.Data, e.Label, rng.U64())
+			// and the value itself still round-trips through a chunked reader
+			out, _ := cg.DecodeTerm(e.Kind, cg.ChunkedReader("randomShort", e.Data, rng.U64()))
+			if out != "ok" {
+				violate(c, cg.KindNames[e.Kind]+".Decode.readerKind.differs", "a valid large encoding does not decode through a chunked reader", map[string]interface{}{"label": e.Label, "encoding_len": len(e.Data)})
+			}
+		}
+	}
+	for r := 0; r < 20*budget; r++ {
+		p, class := cg.GenPolygon(rng)
+		b, _ := cg.Enc(func(w *bytes.Buffer) error { return p.Encode(w) })
+		readerCheck(c, cg.KPolygon, b, class, rng.U64())
+		l, lclass := cg.GenLoop(rng)
+		lb, _ := cg.Enc(func(w *bytes.Buffer) error { return l.Encode(w) })
+		readerCheck(c, cg.KLoop, lb, lclass, rng.U64())
+		pt, cp, rc := cg.AnyPoint(rng), cg.AnyCap(rng), cg.ValidRect(rng)
+		pb, _ := cg.Enc(func(w *bytes.Buffer) error { return pt.Encode(w) })
+		readerCheck(c, cg.KPoint, pb, "point", rng.U64())
+		cb, _ := cg.Enc(func(w *bytes.Buffer) error { return cp.Encode(w) })
+		readerCheck(c, cg.KCap, cb, "cap", rng.U64())
+		rb, _ := cg.Enc(func(w *bytes.Buffer) error { return rc.Encode(w) })
+		readerCheck(c, cg.KRect, rb, "rect", rng.U64())
 	}
 }
 
